@@ -479,3 +479,202 @@ def extra_checks(prop, tier, seed, workdir):
     return {"violations": bad[:20], "states": states, "transitions": trans,
             "coverage": {"pairs_compared": total, "pairs_differing": len(bad), "model": model,
                          "mode": "flip of one non-critical outcome" if prop == "C06" else "nested vs flattened"}}
+
+
+# ---------------------------------------------------------------- corruption self-test
+def _renumber(ev):
+    for i, e in enumerate(ev):
+        e["q"] = i + 1
+    return ev
+
+
+def corrupt(trace, kind):
+    """one recorded field of an accepted trace is falsified; None when this
+    trace offers no opportunity for that corruption"""
+    tr = json.loads(json.dumps(trace))
+    ev = tr["ev"]
+    cfg = tr["cfg"]
+    if kind == "start-before-requirement":
+        for i, e in enumerate(ev):
+            if e["k"] == "start" and cfg["req"][e["n"] - 1]:
+                r = cfg["req"][e["n"] - 1][0]
+                j = next((x for x in range(i) if ev[x]["n"] == r and ev[x]["k"] in ("end", "raise", "run-end", "run-exc")), None)
+                if j is None or any(x["k"] == "tick" for x in ev[j:i]) is False:
+                    pass
+                if j is not None:
+                    moved = ev.pop(i)
+                    moved["t"] = ev[j]["t"]
+                    ev.insert(j, moved)
+                    return _renumber(ev) and tr
+        return None
+    if kind == "second-start":
+        for i, e in enumerate(ev):
+            if e["k"] == "start":
+                ev.insert(i + 1, dict(e))
+                return _renumber(ev) and tr
+        return None
+    if kind == "verdict-flipped":
+        hit = False
+        for e in ev:
+            if e["n"] == 1 and e["k"] in ("run-end", "top") and e["v"] in ("true", "false"):
+                e["v"] = "false" if e["v"] == "true" else "true"
+                hit = True
+        return tr if hit else None
+    if kind == "shut-dropped":
+        for i, e in enumerate(ev):
+            if e["k"] == "shut":
+                drop = {i} | {x for x in range(i, len(ev)) if ev[x]["n"] == e["n"] and ev[x]["k"] in ("shut-done", "shut-cancel", "shut-cancel-done")}
+                tr["ev"] = _renumber([x for k, x in enumerate(ev) if k not in drop])
+                return tr
+        return None
+    if kind == "start-delayed":
+        # a job whose start is followed by a tick: claim it started after that tick
+        for i, e in enumerate(ev):
+            if e["k"] == "start":
+                j = next((x for x in range(i + 1, len(ev)) if ev[x]["k"] == "tick"), None)
+                if j is not None and not any(ev[x]["n"] == e["n"] for x in range(i + 1, j + 1)):
+                    moved = ev.pop(i)
+                    moved["t"] = ev[j - 1]["i"]
+                    ev.insert(j, moved)
+                    return _renumber(ev) and tr
+        return None
+    if kind == "cancel-dropped":
+        for i, e in enumerate(ev):
+            if e["k"] == "cancel":
+                drop = {i} | {x for x in range(i, len(ev)) if ev[x]["n"] == e["n"] and ev[x]["k"] == "cancel-done"}
+                tr["ev"] = _renumber([x for k, x in enumerate(ev) if k not in drop])
+                return tr
+        return None
+    if kind == "late-event":
+        ev.append({"q": 0, "t": ev[-1]["t"] + 1, "k": "end", "n": cfg["n"], "v": "-", "i": 0})
+        return _renumber(ev) and tr
+    return None
+
+
+CORRUPTIONS = ["start-before-requirement", "second-start", "verdict-flipped", "shut-dropped",
+               "start-delayed", "cancel-dropped", "late-event"]
+
+
+def corruption_selftest(traces, workdir, per_kind=12):
+    """corrupted copies of accepted traces must all be rejected by the trace
+    specification; -> {kind: {"tried", "rejected", "attributed": {...}}}"""
+    items, meta = [], []
+    for kind in CORRUPTIONS:
+        cnt = 0
+        for tr in traces:
+            if cnt >= per_kind:
+                break
+            bad = corrupt(tr, kind)
+            if bad is not None:
+                items.append(bad)
+                meta.append(kind)
+                cnt += 1
+    if not items:
+        return {}
+    trf = os.path.join(workdir, "corrupt.json")
+    with open(trf, "w") as out:
+        json.dump(items, out)
+    acc, front, _, _ = validate(trf, workdir, diag=True)
+    os.remove(trf)
+    res = {}
+    for i, kind in enumerate(meta):
+        slot = res.setdefault(kind, {"tried": 0, "rejected": 0, "attributed": {}})
+        slot["tried"] += 1
+        if (i + 1) in acc:
+            continue
+        slot["rejected"] += 1
+        props = set(front.get(("sym", i + 1), []))
+        for (_, _, code) in front.get(i + 1, (0, set()))[1]:
+            props.update(attribute(code) or [])
+        for p in sorted(props):
+            slot["attributed"][p] = slot["attributed"].get(p, 0) + 1
+    return res
+
+
+# ---------------------------------------------------------------- outcome prediction
+def summary_of_trace(trace):
+    """the outcome summary of a real run, in the format of OrchestraPredict!SummaryOf"""
+    cfg = trace["cfg"]
+    n = cfg["n"]
+    t0 = [-1] * (n + 1)
+    te = [-1] * (n + 1)
+    st = [0] * (n + 1)
+    res = [(0, 0)] * (n + 1)
+    cause = [0] * (n + 1)
+    sh = [0] * (n + 1)
+    for e in trace["ev"]:
+        k, node = e["k"], e["n"]
+        if k in ("start", "run-begin"):
+            t0[node] = e["t"]
+        elif k == "end":
+            te[node], st[node], res[node] = e["t"], 1, (1, node)
+        elif k == "raise":
+            te[node], st[node], res[node] = e["t"], 2, (2, node)
+        elif k == "cancel-done":
+            te[node], st[node] = e["t"], 3
+        elif k == "run-end":
+            te[node], st[node], res[node] = e["t"], 1, ((3, 0) if e["v"] == "true" else (4, 0))
+        elif k == "run-exc":
+            if e["v"] == "cancelled":
+                te[node], st[node], cause[node] = e["t"], 3, 4
+            else:
+                te[node], st[node], res[node] = e["t"], 2, (2, e["i"])
+        elif k == "diag":
+            cause[node] = {"fine": 1, "timeout": 2, "critical": 3}.get(e["v"], 9)
+        elif k == "shut-done":
+            sh[node] = 1
+        elif k == "shut-cancel":
+            sh[node] = 2
+        elif k == "top":
+            break
+    return [[t0[i], te[i], st[i], res[i][0], res[i][1], cause[i], sh[i]] for i in range(1, n + 1)]
+
+
+OUT = re.compile(r'^"OUT\|(\d+)\|(.*)"$')
+
+
+def predict(traces, workdir):
+    """-> (misses, generated, distinct, sizes); misses = traces whose real outcome is
+    not among the outcomes the specification allows for their scenario"""
+    scf = os.path.join(workdir, "predict-%d.json" % id(traces))
+    with open(scf, "w") as out:
+        json.dump([{"sid": i + 1, "cfg": t["cfg"]} for i, t in enumerate(traces)], out)
+    rc, out = tlc.run("OrchestraPredict.tla", "OrchestraPredict.cfg", env={"TRACE_FILE": scf},
+                      workers=1, scratch=workdir, heap="3g")
+    os.remove(scf)
+    bad = tlc.violated(out)
+    if bad:
+        raise tlc.TlcFailure("the specification violates %s on a scripted scenario:\n%s" % (bad, out[-4000:]))
+    if "Model checking completed" not in out:
+        raise tlc.TlcFailure("prediction did not complete:\n" + out[-3000:])
+    allowed = {}
+    for line in out.splitlines():
+        m = OUT.match(line)
+        if m:
+            val = json.loads(m.group(2).replace("<<", "[").replace(">>", "]"))
+            allowed.setdefault(int(m.group(1)), set()).add(json.dumps(val))
+    misses = []
+    sizes = []
+    for i, tr in enumerate(traces):
+        outs = allowed.get(i + 1, set())
+        sizes.append(len(outs))
+        top = next((e for e in tr["ev"] if e["k"] == "top"), None)
+        if top is None or top["v"] in ("deadlock", "livelock"):
+            misses.append((tr, "no-termination", len(outs)))
+        elif json.dumps(summary_of_trace(tr)) not in outs:
+            misses.append((tr, "outcome-not-allowed", len(outs)))
+    gen, dist = tlc.stats(out)
+    return misses, gen, dist, sizes
+
+
+def predict_all(traces, workdir):
+    shards = [traces[i::NSHARDS] for i in range(NSHARDS)]
+    shards = [s for s in shards if s]
+    misses, gen, dist, sizes = [], 0, 0, []
+    with concurrent.futures.ThreadPoolExecutor(max_workers=NSHARDS) as pool:
+        for m, g, d, z in pool.map(lambda s: predict(s, workdir), shards):
+            misses += m
+            gen += g
+            dist += d
+            sizes += z
+    return misses, gen, dist, sizes
